@@ -1076,38 +1076,70 @@ pub fn array_sort(
             .collect()
     };
 
-    if let Some(cmp) = compare_fn {
-        if cmp.is_callable() {
-            for i in 0..elements.len() {
-                let limit = elements.len().saturating_sub(1 + i);
-                for j in 0..limit {
-                    // j and j+1 are guaranteed in bounds due to limit calculation
-                    let (left, right) = match (elements.get(j), elements.get(j + 1)) {
-                        (Some(l), Some(r)) => (l.clone(), r.clone()),
-                        _ => continue,
-                    };
-                    let Guarded {
-                        value: result,
-                        guard: _result_guard,
-                    } = interp.call_function(cmp.clone(), JsValue::Undefined, &[left, right])?;
-                    if result.to_number() > 0.0 {
-                        elements.swap(j, j + 1);
+    // undefined elements always sort to the end, without being compared
+    let total = elements.len();
+    elements.retain(|v| !matches!(v, JsValue::Undefined));
+
+    match compare_fn {
+        Some(cmp) if cmp.is_callable() => {
+            // Stable bottom-up merge sort: the comparator is called O(n log n) times
+            let mut width = 1;
+            let mut buffer: Vec<JsValue> = Vec::with_capacity(elements.len());
+            while width < elements.len() {
+                buffer.clear();
+                let mut start = 0;
+                while start < elements.len() {
+                    let mid = (start + width).min(elements.len());
+                    let end = (start + 2 * width).min(elements.len());
+                    let (mut left, mut right) = (start, mid);
+                    while left < mid && right < end {
+                        let (Some(l), Some(r)) = (elements.get(left), elements.get(right)) else {
+                            break;
+                        };
+                        let Guarded {
+                            value: result,
+                            guard: _result_guard,
+                        } = interp.call_function(
+                            cmp.clone(),
+                            JsValue::Undefined,
+                            &[l.clone(), r.clone()],
+                        )?;
+                        if interp.coerce_to_number(&result)? > 0.0 {
+                            buffer.push(r.clone());
+                            right += 1;
+                        } else {
+                            buffer.push(l.clone());
+                            left += 1;
+                        }
                     }
+                    buffer.extend(elements.get(left..mid).unwrap_or(&[]).iter().cloned());
+                    buffer.extend(elements.get(right..end).unwrap_or(&[]).iter().cloned());
+                    start = end;
                 }
+                core::mem::swap(&mut elements, &mut buffer);
+                width *= 2;
             }
         }
-    } else {
-        // Pre-compute string representations for sorting
-        let mut pairs: Vec<(JsString, JsValue)> = elements
-            .into_iter()
-            .map(|v| {
-                let s = interp.to_js_string(&v);
-                (s, v)
-            })
-            .collect();
-        pairs.sort_by(|(a_str, _), (b_str, _)| a_str.as_str().cmp(b_str.as_str()));
-        elements = pairs.into_iter().map(|(_, v)| v).collect();
+        Some(JsValue::Undefined) | None => {
+            // Pre-compute string representations for sorting
+            let mut pairs: Vec<(JsString, JsValue)> = Vec::with_capacity(elements.len());
+            for v in elements {
+                let s = interp.coerce_to_string(&v)?;
+                pairs.push((s, v));
+            }
+            // Strings compare by UTF-16 code units
+            pairs.sort_by(|(a_str, _), (b_str, _)| {
+                a_str.as_str().encode_utf16().cmp(b_str.as_str().encode_utf16())
+            });
+            elements = pairs.into_iter().map(|(_, v)| v).collect();
+        }
+        Some(_) => {
+            return Err(JsError::type_error(
+                "The comparison function must be either a function or undefined",
+            ));
+        }
     }
+    elements.resize(total, JsValue::Undefined);
 
     {
         let mut arr_ref = arr.borrow_mut();
@@ -1447,8 +1479,51 @@ pub fn array_from(
                         }
                     }
                 }
-                // If no iterator, elements remains empty (array-like objects would need length property)
+                // No iterator: an array-like object contributes indices 0 .. length-1
+                else {
+                    let length_key = interp.property_key("length");
+                    let length = obj
+                        .borrow()
+                        .get_property(&length_key)
+                        .unwrap_or(JsValue::Undefined);
+                    let length = interp.coerce_to_number(&length)?;
+                    let length = if length.is_nan() || length <= 0.0 {
+                        0.0
+                    } else {
+                        length.min(9_007_199_254_740_991.0)
+                    };
+                    if length > crate::value::MAX_DENSE_ARRAY_LENGTH as f64 {
+                        return Err(JsError::range_error("Invalid array length"));
+                    }
+                    for i in 0..length as u32 {
+                        let elem = obj
+                            .borrow()
+                            .get_property(&PropertyKey::Index(i))
+                            .unwrap_or(JsValue::Undefined);
+                        let mapped = match map_fn {
+                            Some(ref map) if map.is_callable() => {
+                                let Guarded {
+                                    value: mapped_val,
+                                    guard: _mapped_guard,
+                                } = interp.call_function(
+                                    map.clone(),
+                                    JsValue::Undefined,
+                                    &[elem, JsValue::Number(i as f64)],
+                                )?;
+                                mapped_val
+                            }
+                            _ => elem,
+                        };
+                        mapped.guard_by(&elements_guard);
+                        elements.push(mapped);
+                    }
+                }
             }
+        }
+        JsValue::Undefined | JsValue::Null => {
+            return Err(JsError::type_error(
+                "Array.from requires an array-like or iterable object",
+            ));
         }
         JsValue::String(s) => {
             for (i, ch) in s.as_str().chars().enumerate() {
@@ -1647,7 +1722,11 @@ pub fn array_flat(
         ));
     };
 
-    let depth = args.first().map(|v| v.to_number() as i32).unwrap_or(1);
+    // An undefined depth is 1
+    let depth = match args.first() {
+        None | Some(JsValue::Undefined) => 1,
+        Some(v) => v.to_number() as i32,
+    };
 
     fn flatten(arr: &JsObjectRef, depth: i32, stack_base: usize) -> Result<Vec<JsValue>, JsError> {
         Interpreter::check_native_stack_since(stack_base)?;
